@@ -287,6 +287,12 @@ def counter_kind(body, leaves, tr, sb, bb, tgt):
             fld = [p for p in l.projs if p.startswith(".")][-1]
             if field_incremented_before(body, fld, sb):
                 kinds.add("incremented-field")
+            elif field_incremented_before(body, fld, bb, after=tgt):
+                # check first, count after: `if self.f >= MAX { return Err } self.f += 1; recurse`
+                kinds.add("field-checked-then-incremented")
+            elif passed_down_plus_one(body, tr, fld, tgt, bb):
+                # check first, hand on f + 1: `if self.f >= MAX { return Err } Child { f: self.f + 1, .. }.recurse()`
+                kinds.add("field-checked-then-passed-down+1")
             else:
                 return None
         elif l.kind == "call" and (name_matches(l.detail[0], ["std::vec::Vec::<T, A>::len"]) or l.detail[1].endswith("::len")):
@@ -305,12 +311,13 @@ def counter_kind(body, leaves, tr, sb, bb, tgt):
     return None
 
 
-def field_incremented_before(body, fld, sb):
+def field_incremented_before(body, fld, sb, after=None):
+    """an in-place `self.fld += 1` that dominates sb (and, when `after` is given, is itself dominated by `after`)"""
     for b2, idx, s in body.stmts():
         if idx == "t" or s["k"] != "assign":
             continue
         projs = pl_projs(s["pl"])
-        if projs and projs[-1] == fld and body.dominates(b2, sb):
+        if projs and projs[-1] == fld and body.dominates(b2, sb) and (after is None or (body.dominates(after, b2))):
             rv = s["rv"]
             # (*self).f = move _t.0 where _t = AddWithOverflow((*self).f, 1)
             if rv["k"] == "use" and rv["op"]["k"] in ("copy", "move"):
@@ -321,6 +328,70 @@ def field_incremented_before(body, fld, sb):
                         if lp and pl_projs(lp) and pl_projs(lp)[-1] == fld and rv3["r"]["k"] == "const" and rv3["r"].get("v") == "1":
                             return True
             if rv["k"] == "bin" and rv["op"] in ("Add", "AddWithOverflow"):
+                return True
+    return False
+
+
+def passed_down_plus_one(body, tr, fld, tgt, bb):
+    """between the within-limit edge and the re-entry, a value of self's own type is built whose field `fld` is self.fld + 1"""
+    from engine import find_aggs
+    self_ty = body.local_ty(1).lstrip("&").replace("mut ", "").split("<")[0].strip()
+    for b2, idx, st in body.stmts():
+        if idx == "t" or st.get("k") != "assign" or st["rv"]["k"] != "agg" or st["rv"].get("ak") != "adt":
+            continue
+        rv = st["rv"]
+        if not self_ty or str(rv.get("adt", "")) != self_ty or fld.lstrip(".") not in (rv.get("fields") or []):
+            continue
+        if not (body.dominates(tgt, b2) and body.dominates(b2, bb)):
+            continue
+        ls = tr.operand(rv["ops"][rv["fields"].index(fld.lstrip("."))])
+        if not ls:
+            continue
+        good = True
+        for l in ls:
+            if not (l.kind == "op" and l.detail[0] == "bin" and l.detail[1] in ("Add", "AddWithOverflow")):
+                good = False
+                break
+            d = body.blocks[l.detail[2]]["s"][l.detail[3]]["rv"]
+            ll = tr.operand(d["l"])
+            if not (d["r"]["k"] == "const" and str(d["r"].get("v")) == "1" and ll and all(x.kind == "param" and x.detail == 1 and x.projs and x.projs[-1] == fld for x in ll)):
+                good = False
+        if good:
+            return True
+    # the same through a constructor helper: `self.nested(.., self.f + 1, ..)` whose body builds Self { f: <that parameter>, .. }
+    crate = body.crate
+    for cb, t in body.calls():
+        if not (body.dominates(tgt, cb) and body.dominates(cb, bb)) or cb == bb:
+            continue
+        h = None
+        for n in callee_names(t):
+            h = crate.bodies.get(n) or h
+        if h is None or h is body or h.kind not in ("fn", "assoc_fn"):
+            continue
+        htr = Tracer(h)
+        for b2, idx, st in h.stmts():
+            if idx == "t" or st.get("k") != "assign" or st["rv"]["k"] != "agg" or st["rv"].get("ak") != "adt":
+                continue
+            rv = st["rv"]
+            if str(rv.get("adt", "")) != self_ty or fld.lstrip(".") not in (rv.get("fields") or []):
+                continue
+            pl = htr.operand(rv["ops"][rv["fields"].index(fld.lstrip("."))])
+            if not pl or not all(x.kind == "param" and not x.projs for x in pl) or len({x.detail for x in pl}) != 1:
+                continue
+            k = next(iter(pl)).detail - 1
+            if k >= len(t["args"]):
+                continue
+            ok = True
+            als = tr.operand(t["args"][k])
+            for l in als:
+                if not (l.kind == "op" and l.detail[0] == "bin" and l.detail[1] in ("Add", "AddWithOverflow")):
+                    ok = False
+                    break
+                d = body.blocks[l.detail[2]]["s"][l.detail[3]]["rv"]
+                ll = tr.operand(d["l"])
+                if not (d["r"]["k"] == "const" and str(d["r"].get("v")) == "1" and ll and all(x.kind == "param" and x.detail == 1 and x.projs and x.projs[-1] == fld for x in ll)):
+                    ok = False
+            if ok and als:
                 return True
     return False
 
